@@ -62,6 +62,11 @@ def Instr.usesValue : Instr → Option Value
   | .exprValue v _ | .exprStructValue v _ _ | .binding v _ => some v
   | _ => none
 
+/-- tag of an extension instruction -/
+def Instr.extTag : Instr → Option Nat
+  | .ext t _ => some t
+  | _ => none
+
 def resultRegs (stack : List Instr) : List Nat := stack.filterMap Instr.writes
 def setLabels (stack : List Instr) : List Name := stack.filterMap Instr.setsLabel
 def jumpTargets (stack : List Instr) : List Name := stack.flatMap Instr.targets
